@@ -25,7 +25,7 @@ import (
 
 func init() {
 	register(&Rule{
-		ID: "WG", Props: []string{"C13", "C15", "C19", "C04", "C03", "C16", "C06"}, Min: 30,
+		ID: "WG", Props: []string{"C13", "C15", "C19", "C04", "C03", "C16", "C06"}, Min: 22,
 		Doc: `worker pools joined by a local sync.WaitGroup: (join) every goroutine started in the function whose body, through the local closures it calls, stores into memory visible
 outside of it (fields, elements, captured variables) calls Done() on a WaitGroup of the function — otherwise Wait() returns while that goroutine still writes; (count) the total
 passed to Add equals the number of started goroutines that call Done, as polynomials over loop trip counts.`,
